@@ -816,7 +816,10 @@ class ProductStack:
             # save() and ensureInSync() look at the files in persistDir, not
             # at the ones in dbpath: note their times before anything is read
             persistTimes = {}
-            for flav in flavors:
+            cached = []
+            if os.path.isdir(out._persistDir()):
+                cached = ProductStack.findCachedFlavors(out._persistDir())
+            for flav in flavors + [f for f in cached if f not in flavors]:
                 file = out._persistPath(flav)
                 try:
                     persistTimes[file] = os.stat(file).st_mtime
@@ -830,7 +833,16 @@ class ProductStack:
         if not cacheOkay:
             out.refreshFromDatabase(userTagDir)
             out._flavorsUpdated(flavors)
-            if updateCache:  out.save()
+            if updateCache:
+                # a cache file that somebody has saved while the database was
+                # being read is newer than what was just read: leave it alone
+                for flav in out.updated:
+                    persistTimes.setdefault(out._persistPath(flav), 0)
+                out.modtimes.update(persistTimes)
+                try:
+                    out.save()
+                except CacheOutOfSync:
+                    pass
 
         out.autosave = autosave
         return out
